@@ -184,6 +184,23 @@ pub fn generate(args: &Args, out: &mut Out) {
             }
         }
     }
+    // one string made of d escapes that the lenient options treat specially: a scanner that handles a
+    // run of unpaired surrogates by recursion costs a frame per escape
+    for shape in ["hi_run", "lo_run", "pair_run", "hi_run_key"] {
+        let lens: &[usize] = if full { &[1, 2, 1000, 100000, 1000000] } else { &[1, 2, 1000, 100000] };
+        for &d in lens {
+            for o in [0u32, 1, 2, 3] {
+                if d > 1000 && o == 0 {
+                    continue;
+                }
+                out.case(|| format!("d {shape} {d} {o} str"));
+                out.case(|| format!("dd {shape} {d} {o} str"));
+                if d == 1000 {
+                    out.case(|| format!("d {shape} {d} {o} slice"));
+                }
+            }
+        }
+    }
     let shapes = ["arr", "arr_open", "obj", "obj_open", "mixed", "mixed_open", "wide_deep", "arr_garbage", "obj_garbage", "arr_sibling"];
     for shape in shapes {
         for &d in depths {
